@@ -448,6 +448,13 @@ def check_law(case):
                 r = eng.match(txn_for_real(t), data_sources=copy.deepcopy(ORDERS))
                 if ea[0] == "ok" and r.matched != bool(ea[1][1]):
                     viol.append({"kind": "entry-points-disagree", "detail": {"expression": e, "txn": ti, "evaluate_transaction": ea, "engine_matched": r.matched}, "case": case})
+                # names are case-insensitive wherever they are introduced: a let: binding and a top-level variable spelled in capitals
+                eng2 = parse_merchants(f"threshold = 100\ntagname = \"UBER\"\nTopVar = {e}\n[R]\nlet: LetVar = {e}\nmatch: letvar and TOPVAR or (not LETVAR and not topvar)\ncategory: C\n")
+                r2 = eng2.match(txn_for_real(t), data_sources=copy.deepcopy(ORDERS))
+                evals += 1
+                if ea[0] == "ok" and not r2.matched:
+                    viol.append({"kind": "entry-points-disagree", "detail": {"expression": e, "txn": ti, "evaluate_transaction": ea,
+                                                                              "rule_with_capitalised_let_and_variable_matched": r2.matched}, "case": case})
     elif case["law"] == "engine-mix":
         from tally.merchant_engine import parse_merchants
         import copy
